@@ -48,6 +48,12 @@ CHECKS = {
              "Schedules enumerated from the model are replayed on the real _ProgressBars (instrumented queue/event, no hook) and compared with the model; CLI runs with many chromosomes count result files. "
              "Modelled: atomic steps = flag test, pop(+append), put, set; the GIL / Manager proxies / pool teardown are not modelled.",
         design="DESIGN.md 6 C11"),
+    "C19": dict(
+        technique="Coq proof (case analysis of the open sequence; induction over open/write histories) + histories on real HDF5 files",
+        text="Theorems c19_accept_iff_and_unchanged/error_kind/opens_preserve/reopen_accept_iff/reachable over the model of _DensitySubset; "
+             "random histories (equal / length+-1 / one element / order differences in each of the three lists, several groups) on real scratch HDF5 files, "
+             "group contents digested before/after every open and compared with the model. Domain: non-empty identifiers (a stored empty name is h5py's 'uninitialised' marker; c19_empty_name_note).",
+        design="DESIGN.md 6 C19"),
     "C20": dict(
         technique="Coq proof (invariant accepted ++ pending = map exec taken over all answer scripts) + scripted execution of the real run() loop",
         text="Theorems c20_no_loss_no_dup_in_order/sentinel_complete/exit_causes for every script of queue-full / queue-empty / stop answers; legacy refuted. "
